@@ -5,6 +5,7 @@ model (ocaml/seq_main.ml); results compared per category.  The extracted Spec
 oracle for the observable results."""
 import os
 import random
+import time
 import re
 
 from . import common as C
@@ -424,6 +425,9 @@ class SeqRun:
     pass
 
 
+IMPL_TIMEOUT = 60      # seconds per script on the real library (normal scripts run in well under a second)
+
+
 def run_script(tag, ops, name="s"):
     """returns SeqRun with per-op records of both sides, or .error"""
     r = SeqRun()
@@ -434,10 +438,11 @@ def run_script(tag, ops, name="s"):
     with open(sf, "w") as f:
         f.write("\n".join(r.ops) + "\n")
     r.script = sf
-    rc, out = C.sh([os.path.join(C.BUILD, "seq_driver_" + tag), sf], timeout=900, merge=False)
+    rc, out = C.sh([os.path.join(C.BUILD, "seq_driver_" + tag), sf], timeout=IMPL_TIMEOUT, merge=False)
     r.error = None
     if rc != 0:
-        r.error = "seq_driver exited %d (crash or abort of the implementation)" % rc
+        r.error = ("the implementation did not finish the script within %d s (an operation does not terminate)" % IMPL_TIMEOUT
+                   if rc == 124 else "seq_driver exited %d (crash or abort of the implementation)" % rc)
         r.impl_raw = out
         lines = out.split("\n")
         r.crash_at = len([x for x in lines if x])
@@ -515,7 +520,10 @@ def minimize(tag, ops, still_fails, budget=60):
     body = [o for o in ops if o.split()[0] not in ("init", "enter", "create", "leave", "fin")]
     n = 2
     tries = 0
-    while len(body) >= 2 and tries < budget:
+    global IMPL_TIMEOUT
+    saved_timeout, IMPL_TIMEOUT = IMPL_TIMEOUT, 15
+    t_end = time.time() + 240
+    while len(body) >= 2 and tries < budget and time.time() < t_end:
         chunk = max(1, len(body) // n)
         reduced = False
         for s in range(0, len(body), chunk):
@@ -532,6 +540,7 @@ def minimize(tag, ops, still_fails, budget=60):
             if chunk == 1:
                 break
             n = min(len(body), n * 2)
+    IMPL_TIMEOUT = saved_timeout
     return head + body + tail
 
 
